@@ -12,23 +12,23 @@ def trip {α} [Codec α] (m : α × α × α) : String := s!"{Out.sc m.1} {Out.s
     to them, the harness evaluates scipy there and sends the values back to the `*.all` ops. -/
 def run (α : Type) [Scalar α] [Codec α] (op : String) (c : Ctx) : Option (Rd String) :=
   match op with
-  | "curved.validate" => some do
+  | "c10.curved.validate" => some do
       -- in: list of scalars ; out: b1 | E:ValueError
       let vs : List α ← Rd.list c (Rd.sc c)
       match validate vs with
       | .ok _ => pure (Out.bool true)
       | .error k => pure s!"E:{k}"
-  | "circle.all" => some do
+  | "c10.circle.all" => some do
       -- in: r cen(3) ; out: area ecc perimeter circumference ix iy ixy polar inertia(9) iq
       let r : α ← Rd.sc c
       let cen : V3 α ← Rd.v3 c
       pure s!"{Out.sc (Circle.area r)} {Out.sc (Circle.eccentricity r)} {Out.sc (Circle.perimeter r)} {Out.sc (Circle.circumference r)} {trip (Circle.planarMoments r cen)} {Out.sc (Circle.polarMoment r cen)} {Out.m3 (Circle.inertiaTensor r cen)} {Out.sc (Circle.iq r)}"
-  | "ellipse.args" => some do
+  | "c10.ellipse.args" => some do
       -- in: a b ; out: ellipe argument, eccentricity
       let a : α ← Rd.sc c
       let b : α ← Rd.sc c
       pure s!"{Out.sc (Ellipse.ellipeArg a b)} {Out.sc (Ellipse.eccentricity a b)}"
-  | "ellipse.all" => some do
+  | "c10.ellipse.all" => some do
       -- in: a b cen(3) E(=ellipe at the model's argument)
       -- out: area ecc perimeter circumference ix iy ixy polar inertia(9) iq
       let a : α ← Rd.sc c
@@ -37,12 +37,12 @@ def run (α : Type) [Scalar α] [Codec α] (op : String) (c : Ctx) : Option (Rd 
       let e : α ← Rd.sc c
       let E : α → α := fun _ => e
       pure s!"{Out.sc (Ellipse.area a b)} {Out.sc (Ellipse.eccentricity a b)} {Out.sc (Ellipse.perimeter E a b)} {Out.sc (Ellipse.circumference E a b)} {trip (Ellipse.planarMoments a b cen)} {Out.sc (Ellipse.polarMoment a b cen)} {Out.m3 (Ellipse.inertiaTensor a b cen)} {Out.sc (Ellipse.iq E a b)}"
-  | "sphere.all" => some do
+  | "c10.sphere.all" => some do
       -- in: r cen(3) ; out: volume surface diameter inertia(9) iq
       let r : α ← Rd.sc c
       let cen : V3 α ← Rd.v3 c
       pure s!"{Out.sc (Sphere.volume r)} {Out.sc (Sphere.surfaceArea r)} {Out.sc (Sphere.diameter r)} {Out.m3 (Sphere.inertiaTensor r cen)} {Out.sc (Sphere.iq r)}"
-  | "ellipsoid.args" => some do
+  | "c10.ellipsoid.args" => some do
       -- in: a b c ; out: branch (a' > c'), phi, m, sorted (c' b' a')
       let a : α ← Rd.sc c
       let b : α ← Rd.sc c
@@ -50,7 +50,7 @@ def run (α : Type) [Scalar α] [Codec α] (op : String) (c : Ctx) : Option (Rd 
       let s := sort3 a b cc
       let br : Bool := decide (s.1 < s.2.2)
       pure s!"{Out.bool br} {Out.sc (Ellipsoid.saPhi s.2.2 s.1)} {Out.sc (Ellipsoid.saM s.2.2 s.2.1 s.1)} {Out.sc s.1} {Out.sc s.2.1} {Out.sc s.2.2}"
-  | "ellipsoid.all" => some do
+  | "c10.ellipsoid.all" => some do
       -- in: a b c cen(3) E K (= ellipeinc / ellipkinc at the model's arguments)
       -- out: volume surface inertia(9) iq
       let a : α ← Rd.sc c
@@ -63,7 +63,7 @@ def run (α : Type) [Scalar α] [Codec α] (op : String) (c : Ctx) : Option (Rd 
       let K : α → α → α := fun _ _ => k
       pure s!"{Out.sc (Ellipsoid.volume a b cc)} {Out.sc (Ellipsoid.surfaceArea E K a b cc)} {Out.m3 (Ellipsoid.inertiaTensor a b cc cen)} {Out.sc (Ellipsoid.iq E K a b cc)}"
   -- ---- spec (use mode Q with p = 1: exact values in units of π)
-  | "spec.disc" => some do
+  | "c10.spec.disc" => some do
       -- in: p r cx cy ; out: area ix iy ixy polar
       let p : α ← Rd.sc c
       let r : α ← Rd.sc c
@@ -71,7 +71,7 @@ def run (α : Type) [Scalar α] [Codec α] (op : String) (c : Ctx) : Option (Rd 
       let cy : α ← Rd.sc c
       let M := CSpec.discAt p r cx cy
       pure s!"{Out.sc M.m0} {trip M.planar} {Out.sc M.polar}"
-  | "spec.ellipse" => some do
+  | "c10.spec.ellipse" => some do
       -- in: p a b cx cy ; out: area ix iy ixy polar
       let p : α ← Rd.sc c
       let a : α ← Rd.sc c
@@ -80,14 +80,14 @@ def run (α : Type) [Scalar α] [Codec α] (op : String) (c : Ctx) : Option (Rd 
       let cy : α ← Rd.sc c
       let M := CSpec.ellipseAt p a b cx cy
       pure s!"{Out.sc M.m0} {trip M.planar} {Out.sc M.polar}"
-  | "spec.ball" => some do
+  | "c10.spec.ball" => some do
       -- in: p r cen(3) ; out: volume inertia(9)
       let p : α ← Rd.sc c
       let r : α ← Rd.sc c
       let cen : V3 α ← Rd.v3 c
       let M := CSpec.ballAt p r cen
       pure s!"{Out.sc M.m0} {Out.m3 M.inertia}"
-  | "spec.ellipsoid" => some do
+  | "c10.spec.ellipsoid" => some do
       -- in: p a b c cen(3) ; out: volume inertia(9)
       let p : α ← Rd.sc c
       let a : α ← Rd.sc c
